@@ -6,6 +6,8 @@ CONSTANTS
   RegionSharesRules = TRUE
   Faults = FALSE
   MaxDamage = 0
+  FailedLoadKeepsRecord = FALSE
+  RepointKeepsTables = FALSE
   FullFlagInverted = FALSE
 INVARIANTS TypeOK Fresh
 CHECK_DEADLOCK FALSE
